@@ -226,6 +226,30 @@ def run_burst(bindir, profile, wd, tag, n, readers, gate=True, timeout=240, look
     return res
 
 
+def burst_self_test(wd, tag):
+    """the judge is bound to the recorded fields: an accepted trace with one answer moved beyond the stores that had begun and
+    one answer missing stores that had returned must be rejected at exactly those two lines (a tool error otherwise)"""
+    tp = os.path.join(wd, "burst_%s.ndjson" % tag)
+    ls = open(tp).read().splitlines()
+    if len(ls) < 50:
+        return
+    i1, i2 = len(ls) // 3, 2 * len(ls) // 3
+    r = json.loads(ls[i1])
+    r["klo"], r["khi"] = r["hi"] + 5, r["hi"] + 9
+    ls[i1] = json.dumps(r)
+    r = json.loads(ls[i2])
+    if r["lo"] < 4:
+        return
+    r["klo"], r["khi"] = 0, r["lo"] - 3
+    ls[i2] = json.dumps(r)
+    cp = os.path.join(wd, "burst_selftest.ndjson")
+    open(cp, "w").write("\n".join(ls) + "\n")
+    rc, out = C.run_tlc("TraceBurst.tla", "TraceBurst.cfg", env={"TRACE": cp}, workers=1, timeout=600, heap="3g", stack="1g")
+    bad = {(b["l"], b["why"]) for b in C.tlc_json_lines(out, "BAD")}
+    if bad != {(i1 + 1, "AnswerFromTheFuture"), (i2 + 1, "StaleAnswer")}:
+        raise C.ToolError("TraceBurst self-test: corrupted lines %d / %d not rejected as expected: %s" % (i1 + 1, i2 + 1, sorted(bad)))
+
+
 def burst_checks(V, tier, wd):
     """sustained stress judged by TraceBurst.tla (gated: see burstdrv.rs) + the ungated probe of the known growth race"""
     runs = []
@@ -249,6 +273,8 @@ def burst_checks(V, tier, wd):
                         "had taken effect, the answer is exact for prefixes %d..%d only, the reader was already at %d; %s" % (
                             profile, b["t"], b["q"], b["j"], b["why"], b["lo"], b["hi"], b["klo"], b["khi"], b["at"], b["note"]),
                         dict(kind="burst", profile=profile, n=n, readers=readers, gate=True, observation=b))
+        if i == 0 and r["outcome"] == "ok" and not r["bad"]:
+            burst_self_test(wd, "g0")
         C.log("[C14] burst %s: %d stores, %d readers, %s observations (%d judged by TraceBurst), outcome %s, %d unexplained" % (
             profile, n, readers, r["summary"].get("observations", "?"), r["lines"], r["outcome"], len(r["bad"])))
     # growth steps with readers inside, dev profile (2048-byte chunks), no gate:
